@@ -740,6 +740,10 @@ class Machine:
                 if _free(Dn):
                     if len(Dn.u) or np.any(np.asarray(E) != 0):
                         self.fail(f"{op}: carrier with unset shape but the dense result is a nonzero matrix", k)
+                    elif not pre_free and op in UNARY + ("mul", "rmul", "neg", "sub", "add", "iadd", "isub") and np.ndim(E) == 2:
+                        # every operand had a definite shape: so has the result (a zero matrix of that shape), cf. d.T.T == d
+                        self.fail(f"{op}: the result has lost its shape (dimensions {(int(Dn.ulen), int(Dn.vlen))}) although every operand "
+                                  f"had one; dense semantics gives a {np.shape(E)[0]} x {np.shape(E)[1]} matrix", k)
                     self._sync(changed)
                 else:
                     T = Dn.todense()
